@@ -1263,6 +1263,97 @@ def run_kex_ec(ctx, P):
     ctx.cell("kexgroup", "%s/%s" % (group, pair.VNAME[ver]))
 
 
+def run_kex_msg(ctx, P):
+    from tlslite.keyexchange import AECDHKeyExchange
+    from tlslite.messages import ClientHello, ServerHello
+    from tlslite.extensions import ECPointFormatsExtension, \
+        SupportedGroupsExtension
+    from tlslite.constants import ECPointFormat as PF, CipherSuite
+    from tlslite.utils.codec import Parser
+    group, ver = P["group"], tuple(P["ver"])
+    gid = getattr(GroupName, group)
+    curve = CURVE_OF[group]
+    fl = (curve.curve.p().bit_length() + 7) // 8
+    n = curve.order
+    suite = CipherSuite.TLS_ECDH_ANON_WITH_AES_128_CBC_SHA
+    U, C = PF.uncompressed, PF.ansiX962_compressed_prime
+    lists = [None, [U], [U, C], [C, U]]
+    for cl in lists:
+        for sl in lists:
+            ce = [SupportedGroupsExtension().create([gid])]
+            if cl is not None:
+                ce.append(ECPointFormatsExtension().create(list(cl)))
+            ch = ClientHello().create(ver, bytearray(32), bytearray(0),
+                                      [suite], extensions=ce)
+            se = [] if sl is None else \
+                [ECPointFormatsExtension().create(list(sl))]
+            sh = ServerHello().create(ver, bytearray(32), bytearray(0),
+                                      suite, extensions=se or None)
+            wit = {"client_formats": cl, "server_formats": sl}
+            ctx.ev()
+            ctx.count("kex_msg_pairs")
+            srv = AECDHKeyExchange(suite, ch, sh, [gid])
+            cli = AECDHKeyExchange(suite, ch, sh, [gid])
+            try:
+                ske = srv.makeServerKeyExchange()
+                # over the wire
+                ske2 = type(ske)(suite, ver).parse(
+                    Parser(ske.write()[1:]))
+                zc = bytes(cli.processServerKeyExchange(None, ske2))
+                cke = cli.makeClientKeyExchange()
+                cke2 = type(cke)(suite, ver).parse(Parser(cke.write()[1:]))
+                zs = bytes(srv.processClientKeyExchange(cke2))
+            except Exception as e:   # noqa
+                ctx.violation({"clause": "kex_compatible_formats_failed",
+                               "family": "ec", "exc": type(e).__name__,
+                               "version": pair.VNAME[ver]},
+                              dict(wit, group=group, detail=repr(e)[:200]),
+                              "%s: both sides allow the uncompressed point "
+                              "format, the exchange raised %r" % (group, e))
+                continue
+            kex_pos(ctx, group, ver, "sides_differ", zc == zs, wit)
+            # both shares must be in a format the *receiver* listed (or
+            # uncompressed), and the secret is x(abG)
+            Ys, Yc = bytes(ske.ecdh_Ys), bytes(cke.ecdh_Yc)
+            for who, share, recv_list in (("server", Ys, cl),
+                                          ("client", Yc, sl)):
+                fmt = U if share[:1] == b"\x04" else C
+                allowed = recv_list if (cl is not None and sl is not None) \
+                    else [U]
+                kex_pos(ctx, group, ver, "share_format_not_offered_by_peer",
+                        fmt in allowed, dict(wit, sender=who,
+                                             share=share[:8]))
+            a = srv.ecdhXs.privkey.secret_multiplier
+            try:
+                Pc = decode_point(curve, Yc, fl)
+                ref = (Pc * a).x().to_bytes(fl, "big")
+                kex_pos(ctx, group, ver, "secret_differs_from_reference",
+                        zs == ref, dict(wit, got=zs))
+            except Exception as e:   # noqa
+                ctx.inconc("reference point decoding failed: %r" % (e,))
+            ctx.cell("kexmsg", "%s/%s/%s/%s" % (group, pair.VNAME[ver], cl,
+                                                sl))
+
+
+def decode_point(curve, b, fl):
+    """SEC1 octets -> ecdsa Point (own decompression)"""
+    from ecdsa import ellipticcurve
+    p_, a_, b_ = curve.curve.p(), curve.curve.a(), curve.curve.b()
+    x = int.from_bytes(b[1:1 + fl], "big")
+    if b[0] == 4:
+        y = int.from_bytes(b[1 + fl:], "big")
+    else:
+        rhs = (pow(x, 3, p_) + a_ * x + b_) % p_
+        if p_ % 4 == 3:
+            y = pow(rhs, (p_ + 1) // 4, p_)
+        else:
+            from ecdsa.numbertheory import square_root_mod_prime
+            y = square_root_mod_prime(rhs, p_)
+        if (y & 1) != (b[0] & 1):
+            y = p_ - y
+    return ellipticcurve.Point(curve.curve, x, y)
+
+
 def _ossl_derive(ctx, group, ver, privpem, pubpem, want):
     with tempfile.TemporaryDirectory(prefix="c10-") as d:
         o = Ossl(ctx, d)
@@ -1822,6 +1913,15 @@ def make_cases(ctx):
                 yield "kex/%s/%s/%d" % (g, vn, rep), dict(
                     f="kex_x", group=g, ver=ver, pairs=ctx.pick(4, 24),
                     openssl=True)
+    # (iv') the same agreement through the handshake-level helpers: who
+    # writes and who accepts which point encoding follows from the two
+    # ec_point_formats lists (RFC 8422 5.1.2; uncompressed always allowed)
+    for g in EC_GROUPS:
+        if g.endswith("tls13"):
+            continue
+        for ver in ((3, 1), (3, 3)):
+            yield "kexmsg/%s/%d%d" % (g, ver[0], ver[1]), dict(
+                f="kex_msg", group=g, ver=ver)
     # (v) fault injection
     flav = []
     for skey, kx, vers in SERVER_FLAV:
@@ -1869,6 +1969,7 @@ def run(ctx):
                    rsa_strip=run_rsa_strip, dersig=run_dersig,
                    eddsa=run_eddsa, ossl=run_ossl, kex_ff=run_kex_ff,
                    kex_ec=run_kex_ec, kex_x=run_kex_x, fault=run_fault,
+                   kex_msg=run_kex_msg,
                    pss_key_pkcs1=run_pss_key_pkcs1)
     for cid, P in ctx.cases(make_cases(ctx)):
         RUNNERS[P["f"]](ctx, P)
